@@ -11,7 +11,7 @@ func init() {
 	register(&propDef{
 		ID: "C06",
 		Info: propInfo{
-			Technique: "table extraction of the wait/release predicates over the abstract state space + lockset + path rules + lifecycle table",
+			Technique:   "table extraction of the wait/release predicates over the abstract state space + lockset + path rules + lifecycle table",
 			Explanation: "The barrier is a sync.Cond whose predicate reads the status, the pending count and the in-flight counter. (R06.1) the wait predicate, tabulated over status x {pending 0,>0} x {in-flight 0,>0}, equals the reference (Running: pending>0 or in-flight>0; Paused/Stopped: in-flight>0; otherwise false) and is re-evaluated in a loop around Cond.Wait; (R06.2) for Running and Paused, in every abstract state where the wait predicate is false the release evaluation reaches Broadcast; (R06.3) every Broadcast/Signal on the Cond runs with the Cond's own mutex held (this is what excludes the lost wake-up with atomic state); (R06.4) every step that can falsify the predicate re-evaluates the release: each in-flight decrement is followed by a release evaluation, the dispatcher evaluates it each time it has drained the queue, and Purge notifies the dispatcher; (R06.5) the in-flight counter is raised before the dequeue on every path of the dispatcher step, so a waiter never sees pending=0 and in-flight=0 while a job is between queue and pool; (R06.6) from the lifecycle table: PauseAndWait = Pause then wait; Stop waits before any tear-down and before storing Stopped; WaitAndStop = wait then Stop.",
 			NotDecided:  []string{"several barrier callers interleaved with Resume/Pause", "fairness of sync.Cond", "sufficiency of the predicate protocol as a whole (model checking)"},
 			Assumptions: []string{"sync.Cond semantics; sequentially consistent atomics"},
